@@ -55,20 +55,20 @@ type JobScenario struct {
 	DeleteJob  bool     `json:"deleteJob,omitempty"`
 	ForeignPod string   `json:"foreignPod,omitempty"` // "" | noowner | otherowner : occupies attempt ForeignRetry of index 0
 	// ForeignRetry: which attempt's name the foreign pod occupies (0: the first task, 1: the first retry).
-	ForeignRetry int `json:"foreignRetry,omitempty"`
-	NotStarted bool     `json:"notStarted,omitempty"` // job is created but never started by the harness; action u:start available
-	SecondJob  bool     `json:"secondJob,omitempty"`
-	MaxResync  int      `json:"maxResync,omitempty"` // budget of spurious re-syncs (informer resync) of the Job key
-	Unkill     bool     `json:"unkill,omitempty"`    // the user may try to remove the kill timestamp again
-	Probes     bool     `json:"probes,omitempty"`    // also stop the clock one second before every deadline
+	ForeignRetry int  `json:"foreignRetry,omitempty"`
+	NotStarted   bool `json:"notStarted,omitempty"` // job is created but never started by the harness; action u:start available
+	SecondJob    bool `json:"secondJob,omitempty"`
+	MaxResync    int  `json:"maxResync,omitempty"` // budget of spurious re-syncs (informer resync) of the Job key
+	Unkill       bool `json:"unkill,omitempty"`    // the user may try to remove the kill timestamp again
+	Probes       bool `json:"probes,omitempty"`    // also stop the clock one second before every deadline
 
-	Budget  mc.Budget `json:"budget"`
+	Budget mc.Budget `json:"budget"`
 	// OtherFinalizer: the Job is submitted with somebody else's finalizer in its metadata; once the Job is
 	// being deleted that owner releases it at some point (u:release).
 	OtherFinalizer bool `json:"otherFinalizer,omitempty"`
 	// ColdStart: after a restart the Job and Pod informers list one after the other (DESIGN.md 10.9).
 	ColdStart bool `json:"coldStart,omitempty"`
-	Horizon int       `json:"horizon,omitempty"` // seconds of simulated time explored (0 = unbounded)
+	Horizon   int  `json:"horizon,omitempty"` // seconds of simulated time explored (0 = unbounded)
 	// KnownOff removes an environment feature from the alphabet (known-finding split runs).
 	NoStalePods bool `json:"noStalePods,omitempty"`
 }
@@ -85,14 +85,14 @@ type jobWorld struct {
 }
 
 type jobMem struct {
-	Created         map[string]int    `json:"created"`     // job/hash -> pods ever created
-	CreatedName     map[string]bool   `json:"createdName"` // pod names ever created
-	Succeeded       map[string]bool   `json:"succeeded"`   // job/hash -> truly succeeded
+	Created         map[string]int    `json:"created"`      // job/hash -> pods ever created
+	CreatedName     map[string]bool   `json:"createdName"`  // pod names ever created
+	Succeeded       map[string]bool   `json:"succeeded"`    // job/hash -> truly succeeded
 	RecordedSucc    map[string]bool   `json:"recordedSucc"` // job/hash -> the controller itself once recorded a succeeded task for this index
-	Maybe           map[string]bool   `json:"maybe"`       // job/hash -> a pod succeeded but disappeared before the success was recorded: the controller may or may not have seen it
-	LastEnd         map[string]int64  `json:"lastEnd"`     // job/hash -> sim seconds when last attempt ended (finished or removed)
-	Ended           map[string]string `json:"ended"`       // pod name -> how it ended: succeeded|failed|removed
-	EditedFin       map[string]bool   `json:"editedFin"`   // job -> user edited/deleted after finish
+	Maybe           map[string]bool   `json:"maybe"`        // job/hash -> a pod succeeded but disappeared before the success was recorded: the controller may or may not have seen it
+	LastEnd         map[string]int64  `json:"lastEnd"`      // job/hash -> sim seconds when last attempt ended (finished or removed)
+	Ended           map[string]string `json:"ended"`        // pod name -> how it ended: succeeded|failed|removed
+	EditedFin       map[string]bool   `json:"editedFin"`    // job -> user edited/deleted after finish
 	KillsUsed       int               `json:"kills"`
 	FailsUsed       int               `json:"fails"`
 	VanishUsed      int               `json:"vanish"`
